@@ -598,4 +598,73 @@ def toyPrims : Prims where
     if c.length ≥ 16 ∧ c.drop (c.length - 16) = List.replicate 16 0 then some (c.take (c.length - 16)) else none
   fill := implFill
 
+/-- toy IP primitives: `parseIp`/`showIp` use a private one-to-one text form
+    (`4` + 4 octets, `6` + 16 octets as raw bytes), ciphers are byte-wise complements. -/
+def toyShowIp : Ip → Bytes
+  | .v4 o => 52 :: o
+  | .v6 o => 54 :: o
+
+def toyParseIp : Bytes → Option Ip
+  | 52 :: o => if o.length = 4 then some (.v4 o) else none
+  | 54 :: o => if o.length = 16 then some (.v6 o) else none
+  | _ => none
+
+def toyIpPrims : IpPrims where
+  parseIp := toyParseIp
+  showIp := toyShowIp
+  aesEnc := fun _ b => b.map (255 - ·)
+  aesDec := fun _ b => b.map (255 - ·)
+  pfxEnc := fun _ v4 b => if v4 then b.take 12 ++ (b.drop 12).map (255 - ·) else b.map (255 - ·)
+  pfxDec := fun _ v4 b => if v4 then v4Prefix ++ (b.drop 12).map (255 - ·) else b.map (255 - ·)
+
+/-! ## Spec predicates (evaluated by the driver on the implementation's observations, and proved of
+    the model in `VrlProofs/Props/C23.lean`) -/
+
+/-- what both `encrypt` and `decrypt` must answer before any cipher runs. -/
+def precheck (name key iv : Bytes) : Option Err :=
+  match algOfEncrypt name with
+  | none => some .invalidAlgorithm
+  | some a => checkSizes a key iv
+
+/-- C23 on one observation: `enc` = outcome of `encrypt(pt, alg, key, iv)`, `dec` = outcome of
+    `decrypt(c, alg, key, iv)` where `c` is the ciphertext when `enc` is `ok c` and `pt` otherwise.
+    Either both sides reject with the same error (unknown name, key size, IV size), or encryption
+    succeeds with the predicted length and decryption returns the plaintext. -/
+def RoundTripObs (upper : Bytes → Bytes) (alg key iv pt : Bytes) (enc dec : Res Err) : Bool :=
+  match algOfEncrypt (upper alg) with
+  | none => enc == .err .invalidAlgorithm && dec == .err .invalidAlgorithm
+  | some a =>
+    match checkSizes a key iv with
+    | some e => enc == .err e && dec == .err e
+    | none =>
+      match enc with
+      | .ok c => dec == .ok pt && c.length == ctLen a pt.length
+      | _ => false
+
+/-- decrypting arbitrary bytes is never a panic. -/
+def NoPanicObs (dec : Res Err) : Bool := dec != .panic
+
+/-- finding class: AEAD `decrypt(..).expect(..)` on a ciphertext the AEAD rejects. -/
+def D_aead_reject (upper : Bytes → Bytes) (alg key iv : Bytes) : Bool :=
+  match algOfDecrypt (upper alg) with
+  | some a => a.isAead && (checkSizes a key iv).isNone
+  | none => false
+
+/-- IP finding classes. -/
+def D_v4mapped (ip : Ip) : Bool :=
+  match ip with
+  | .v6 o => isV4Form o
+  | .v4 _ => false
+
+def D_pfx_equal_halves (m : Mode) (key : Bytes) : Bool :=
+  m == .pfx && key.length == 32 && pfxKeyPanics key
+
+/-- pfx mode, IPv6 input whose ciphertext lands in `::ffff:0:0/96` and is therefore returned as an
+    IPv4 address, which `decrypt_ip` then decrypts as a 32-bit address. -/
+def D_pfx_v4form (m : Mode) (ip enc : Ip) : Bool :=
+  m == .pfx && !ip.isV4 && enc.isV4
+
+/-- C23 for addresses on one observation (addresses as parsed by std on both ends). -/
+def IpRoundTripObs (ip : Ip) (dec : Option Ip) : Bool := dec == some ip
+
 end Crypt
